@@ -186,6 +186,9 @@ func genC18(t *rapid.T) c18Case {
 	switch kind {
 	case "snps":
 		s := genC03(t)
+		for len(s.Ref.Seq) > 1<<19 {
+			s = genC03(t) // C18 writes its files unwrapped: rows beyond the readers' 1 MiB line limit would not be valid input
+		}
 		for len(s.Recs) < 3 {
 			s.Recs = append(s.Recs, FaRec{ID: fmt.Sprintf("x%d", len(s.Recs)), Seq: s.Recs[0].Seq})
 		}
